@@ -280,13 +280,16 @@ class PKESessionKeyV3(PKESessionKey):
         self.pkalg = packet[0]
         del packet[0]
 
+        # version, key id and algorithm octet (10 octets) have been read; what is left of this packet is the
+        # algorithm-specific part - it ends where the packet ends, whatever it claims about itself
+        body = bytearray(packet[:(self.header.length - 10)])
+        del packet[:(self.header.length - 10)]
+
         if self.ct is not None:
-            self.ct.parse(packet)
+            self.ct.parse(body)
 
         else:  # pragma: no cover
-            # version, key id and algorithm octet (10 octets) have been read
-            self._opaque_ct = bytearray(packet[:(self.header.length - 10)])
-            del packet[:(self.header.length - 10)]
+            self._opaque_ct = body
 
 
 class Signature(VersionedPacket):
